@@ -82,16 +82,18 @@ def density_slot_from_file(fmt, toks, central, neigh, k):
     if fmt == "setfl_fs":
         names = toks["names"]
         # LAMMPS eam/fs: in the block of element I, the j-th density function is the density contributed BY an I atom AT a site of element j
-        return toks["elements"][names.index(neigh)]["dens"][names.index(central)][k]
+        vals = toks["elements"][names.index(neigh)]["dens"][names.index(central)]
+        return vals[k] if k < len(vals) else "missing (block holds %d values)" % len(vals)
     if fmt == "DL_POLY_EAM_fs":
         for b in toks["blocks"]:
             if b["kw"] == "dens" and b["species"] == [central, neigh]:
-                return [x for row in b["rows"] for x in row][k]
+                vals = [x for row in b["rows"] for x in row]
+                return vals[k] if k < len(vals) else "missing (block holds %d values)" % len(vals)
         return None
     for sh in toks:
         if sh["name"] == "EAM-Density":
             col = sh["header"].index("%s->%s" % (central, neigh)) - 1
-            return sh["rows"][k][1][col]
+            return sh["rows"][k][1][col] if k < len(sh["rows"]) else "missing (sheet holds %d rows)" % len(sh["rows"])
     return None
 
 
